@@ -312,6 +312,67 @@ func shapeMonitor(a *buildAux) string {
 				return fmt.Sprintf("interaction %q: %s is not a string", id, f)
 			}
 		}
+		// nested entities: whatever is present has its required members, with the right JSON types
+		schemaHolder := func(where string, x any, needFormat bool) string {
+			h, ok := x.(jobj)
+			if !ok {
+				return fmt.Sprintf("interaction %q: %s is not an object (%v)", id, where, x)
+			}
+			sc, ok := h["schema"].(jobj)
+			if !ok {
+				return fmt.Sprintf("interaction %q: %s.schema is not an object (%v)", id, where, h["schema"])
+			}
+			if _, ok := sc["notation"].(string); !ok {
+				return fmt.Sprintf("interaction %q: %s.schema.notation is not a string", id, where)
+			}
+			if needFormat {
+				if _, ok := h["format"].(string); !ok {
+					return fmt.Sprintf("interaction %q: %s.format is not a string (%v)", id, where, h["format"])
+				}
+			}
+			return ""
+		}
+		exchange := func(where string, x any) string {
+			e, ok := x.(jobj)
+			if !ok {
+				return fmt.Sprintf("interaction %q: %s is not an object (%v)", id, where, x)
+			}
+			b, ok := e["body"]
+			if !ok {
+				return fmt.Sprintf("interaction %q: %s has no body", id, where)
+			}
+			if m := schemaHolder(where+".body", b, true); m != "" {
+				return m
+			}
+			if h, ok := e["headers"]; ok {
+				if m := schemaHolder(where+".headers", h, false); m != "" {
+					return m
+				}
+			}
+			return ""
+		}
+		if rq, ok := it["request"]; ok {
+			if m := exchange("request", rq); m != "" {
+				return m
+			}
+		}
+		if rs, ok := it["responses"].([]any); ok {
+			for i, r := range rs {
+				if m := exchange(fmt.Sprintf("responses[%d]", i), r); m != "" {
+					return m
+				}
+				if _, ok := r.(jobj)["code"].(string); !ok {
+					return fmt.Sprintf("interaction %q: responses[%d].code is not a string", id, i)
+				}
+			}
+		}
+		for _, f := range []string{"query", "pathVariables", "params", "result"} {
+			if x, ok := it[f]; ok {
+				if m := schemaHolder(f, x, f == "query"); m != "" {
+					return m
+				}
+			}
+		}
 	}
 	for _, sec := range []string{"tags", "interactions", "servers", "userTypes", "userEnums"} {
 		if v, ok := doc[sec]; ok {
